@@ -98,6 +98,38 @@ def mutants(selection, runs=None):
     return results
 
 
+def benign(selection, runs=None):
+    """Property-preserving refactors: the checks must stay silent (exit 0)."""
+    sys.path.insert(0, os.path.join(env.VERIF_ROOT, "mutants"))
+    defs = importlib.import_module("benign").BENIGN
+    results = []
+    for mid, prop, rel, old, new, note in defs:
+        if selection and not any(s == mid or s == prop or mid.startswith(s) for s in selection):
+            continue
+        base, src = _scratch_src()
+        try:
+            path = os.path.join(src, "pygaps", rel)
+            text = open(path).read()
+            if old is None or old not in text:
+                print(f"BENIGN {mid}: NOT-APPLICABLE (source text not found)")
+                results.append((mid, "n/a"))
+                continue
+            open(path, "w").write(text.replace(old, new, 1))
+            t0 = time.time()
+            rc, out = run_check_on(src, prop, runs or {"C02": 6000, "C04": 800, "C08": 800, "C09": 48}[prop])
+            verdict = "SILENT" if rc == 0 else ("FALSE-ALARM" if rc == 1 else "HARNESS-ERROR")
+            print(f"BENIGN {mid} [{prop}]: {verdict} rc={rc} wall={time.time() - t0:.0f}s  {note}")
+            if rc != 0:
+                for ln in out.splitlines():
+                    if ln.startswith(("violation:", "HARNESS", "detail")):
+                        print("    " + ln[:400])
+            results.append((mid, verdict))
+        finally:
+            shutil.rmtree(base, ignore_errors=True)
+    print(f"BENIGN: {sum(1 for _, v in results if v == 'SILENT')}/{len(results)} silent; others: {[m for m, v in results if v != 'SILENT']}")
+    return results
+
+
 def seeded(selection):
     root = os.path.join(env.VERIF_ROOT, "seeded")
     results = []
@@ -174,7 +206,7 @@ def known(pinned=False):
 
 def main():
     ap = argparse.ArgumentParser()
-    ap.add_argument("what", choices=["determinism", "mutants", "seeded", "known", "known-pinned"])
+    ap.add_argument("what", choices=["determinism", "mutants", "seeded", "known", "known-pinned", "benign"])
     ap.add_argument("sel", nargs="*")
     ap.add_argument("--runs", type=int)
     a = ap.parse_args()
@@ -183,6 +215,9 @@ def main():
         sys.exit(0 if ok else 1)
     if a.what in ("known", "known-pinned"):
         sys.exit(0 if known(pinned=(a.what == "known-pinned")) else 1)
+    if a.what == "benign":
+        res = benign(a.sel, a.runs)
+        sys.exit(0 if all(v == "SILENT" for _, v in res) else 1)
     if a.what == "mutants":
         res = mutants(a.sel, a.runs)
         sys.exit(0 if all(v == "CAUGHT" for _, v in res) else 1)
